@@ -28,6 +28,14 @@
 (*   CredKind      http.go:clientHost.AuthCreds: the credential function   *)
 (*                 of the clientHost that owns the Auth; it IGNORES its    *)
 (*                 host argument (HonorsHost = FALSE is the code as is)    *)
+(*   SrcGet        http.go:Resp.next calling Req.BodyFunc on a repeated    *)
+(*                 attempt of a streamed blob PUT (blob.go:BlobCopy ->     *)
+(*                 reader Seek(0) -> Resp.Seek -> Resp.next on the source) *)
+(*   ReplyBroken   Req.BodyBytes requests: GetBody returns the drained     *)
+(*                 reader, a 307 cannot re-send the body                   *)
+(*   loc           scheme/reg/blob.go:blobGetUploadURL / blobMount: the    *)
+(*                 upload URL is parsed relative to the FINAL url of the   *)
+(*                 POST (after redirects) and used as Req.DirectURL        *)
 (*   Prog          request sequences of regclient.ManifestGet/Head/Put,    *)
 (*                 BlobGet (with the external URL fall back of             *)
 (*                 scheme/reg/blob.go:BlobGet), BlobHead, BlobPut,         *)
